@@ -610,7 +610,13 @@ Definition dispatch (beh : behaviour) (it : qitem) st : state :=
       | None => st
       | Some e =>
           let '(res, st) := callback beh 2 (p_key e) (p_fd e) (p_revents e) (emit (EvInv 2 (p_uid e)) st) in
-          if res <? 0 then set_polls (upd_nth i mark_deleted (polls st)) (emit (EvDel 2 (p_uid e)) st)
+          if res <? 0 then
+            (* ghost: the removal is logged unless a poll_del from inside the callback already logged it *)
+            let st := match nth_error (polls st) i with
+                      | Some e' => if est_eqb (p_state e') Deleted then st else emit (EvDel 2 (p_uid e)) st
+                      | None => st
+                      end in
+            set_polls (upd_nth i mark_deleted (polls st)) st
           else set_polls (upd_nth i (fun e => if est_eqb (p_state e) Deleted then e
                                               else set_prevents 0 (set_pstate Active e)) (polls st)) st
       end
